@@ -61,7 +61,7 @@ class RedisMessageBroker(MessageBrokerT):
 
     def __unmark_processing(self, key: RoutingKeyT, pipe: Pipeline) -> None:
         pipe.zrem(self.processing_queue, mnc(key, short=True))
-        pipe.hdel(mnc(key), "_reject_to")
+        pipe.hdel(mnc(key), "_reject_to", "_holder")
 
     async def enqueue(
         self,
